@@ -49,7 +49,7 @@ A small change to the library source (under `{wt}/groupby_lib/`, not the tests) 
  3. breaks the property above for SOME inputs, but needs something specific to manifest -- a particular interleaving / completion order of parallel tasks, a multi-step sequence of operations on one object, an unusual input shape (e.g. a group absent from one block of rows, a null in a particular position, a particular mask kind or chunk layout, a particular dtype or container), or two cooperating code sites that each look fine alone. It must NOT be something that ordinary use would expose at once (not "sum returns garbage for every input"). Prefer realistic maintainer mistakes: off-by-one in an offset/cursor, a cache not invalidated, a guard dropped in one of several similar branches, wrong variable reused, state shared that should be local, a merge that ignores a count, dtype handling in one branch only, etc.
  4. comes with a demonstration: a small stand-alone script `{wt}/demo_{pid}.py` that exits 0 on the ORIGINAL code and exits non-zero (assertion failure) WITH your change, using only the public API of the library (GroupBy, groupby_lib.groupby.numba kernels, emas, nanops, util helpers, the pandas facade -- whatever the property is about). The demo may set `groupby_lib.groupby.core.THRESHOLD_FOR_CHUNKED_FACTORIZE` to a small number to reach the chunked code paths with small inputs (the repository's own tests do the same).
 
-{earlier}Read the relevant source first ({files}) to find a good spot. Then make the change, write the demo, verify: demo fails with the change, passes without it, suite stays green with the change.
+{earlier}{hint}Read the relevant source first ({files}) to find a good spot. Then make the change, write the demo, verify: demo fails with the change, passes without it, suite stays green with the change.
 
 FINAL ANSWER (your last message):
  - the output of `git -C {wt} diff` (the patch; leave the change applied and uncommitted in the worktree, demo file untracked),
@@ -69,5 +69,6 @@ for pid, p in props.items():
              + "".join(f"  - {b}\n" for b in earlier[pid]) + "\n")
     open(f"/tmp/mutkit/prompt{wave}_{pid}.txt", "w").write(T.format(
         wt=f"/tmp/mut{wave}_{pid}", wave=wave, pid=pid, title=p["title"], statement=p["statement"],
-        quant=p["quantifier"]["text"], files=", ".join(p["anchors"]["files"]), earlier=e))
+        quant=p["quantifier"]["text"], files=", ".join(p["anchors"]["files"]), earlier=e,
+        hint=(os.environ["HINT"].strip() + "\n\n") if os.environ.get("HINT") else ""))
     print("wrote", f"/tmp/mutkit/prompt{wave}_{pid}.txt")
